@@ -7,12 +7,15 @@ from ..core import Ctx, dec
 from .. import outputcrawl as oc
 
 THEOREMS = ["Output.url_resolves_iff", "Output.url_resolves_iff_visible", "Output.own_page_exists",
-            "Output.member_anchor_exists", "Output.links_resolve", "Output.shorten_resolves", "Output.ctx_ok",
+            "Output.member_anchor_exists", "Output.links_resolve", "Output.inhierarchy_resolves", "Output.letter_links_resolve",
+            "Output.letter_of_visible", "Output.shorten_resolves", "Output.ctx_ok", "Output.shown_page",
             "Output.visible_reachable", "Output.superseded_invisible", "Output.superseded_not_reachable",
-            "Output.inside_superseded_not_reachable", "Output.mem_reached_iff", "Output.origin", "Output.mem_emits",
-            "Output.links_resolve_counterexample_value_old", "Output.index_page_counterexample_old",
+            "Output.inside_superseded_not_reachable", "Output.mem_reached_iff", "Output.mem_pages_iff", "Output.origin",
+            "Output.mem_emits", "Output.pageFile_inj", "Output.pageFile_written", "Output.listed_of_depth",
+            "Output.stored_of_no_visBase", "Output.rootStep_keep", "Output.findRootClasses_visible",
             "Output.links_resolve_counterexample_superseded_old", "Output.links_resolve_counterexample_hidden_old",
-            "Output.links_resolve_counterexample_context_old", "Output.inhierarchy_counterexample_old",
+            "Output.links_resolve_counterexample_context_old", "Output.links_resolve_counterexample_value_old",
+            "Output.index_page_counterexample_old", "Output.inhierarchy_counterexample_old",
             "Output.inhierarchy_counterexample_collision_old"]
 RULE = ("hand-written scenario projects for every situation the quantifier names (inheritance, inherited docstrings, "
         "re-exports, duplicates 'C 0', hidden and private objects, nested classes, several roots) plus random projects "
@@ -23,8 +26,9 @@ RULE = ("hand-written scenario projects for every situation the quantifier names
         "a.internal-link attributed to a producer row by DOM context. Direct oracle: every relative reference resolves "
         "to a written file (+ anchor); every documented (visible, reached through contents) module/package/class has its "
         "page at obj.url and every documented function/attribute its anchor on the parent's page. Correspondence: per "
-        "producer row the set of (page, href) / listing entries, the written files and the anchors vs the Lean Output "
-        "model on the same object table. Non-trivial = the project has an inherited member, an override or a superseded "
+        "producer row the set of (page, href) / listing entries, the written files, the member / class-index / letter anchors and the "
+        "letter links of nameIndex.html vs the Lean Output model on the same object table. The inputs of all past findings "
+        "(known_findings.json, C11 and C12) and one scenario per seeded change run first on every run. Non-trivial = the project has an inherited member, an override or a superseded "
         "duplicate.")
 ASSUMPTIONS = [
     "name resolution (which object an L{...}, an annotation, a base expression names), the MRO and the displayed-docstring "
@@ -41,9 +45,10 @@ ASSUMPTIONS = [
 PARTIAL = {
     "Output.url_resolves_iff": "full, with the one shared address spelled out: index.html of a hidden single root is the project's "
                                "IndexPage (a09aa28); Output.links_resolve is full for all 29 producer rows",
-    "Output.inHierarchy": "no theorem: that the 'View In Hierarchy' link (classIndex.html#<fullName>) of every class page has "
-                          "its anchor is checked by the correspondence (streams inhierarchy / classanchors) and the direct oracle "
-                          "only; the two ways it failed are the `inhierarchy_counterexample_*_old` witnesses",
+    "Output.inhierarchy_resolves": "full under hierWf (evaluated by the driver on every real System: every visible class is registered, "
+                                   "has no blank in its names, bases/baseobjects have the same length, a visible resolved base is a class "
+                                   "that lists it among its subclasses, the chain of first visible bases ends); not covered: a root module "
+                                   "named like a summary page (oracle-only cases, open finding summary-page-name-taken-by-root-module)",
 }
 EXPLANATION = ("Output model = url/page_object/isVisible/taglink/_writeDocsFor + every link producer with its guard, following the "
                "fixed code (cb98646 superseded duplicates are invisible, aaed9bd taglink guard, 1da744b docstring link context, "
@@ -188,6 +193,8 @@ def _account(ctx: Ctx, good) -> None:
         t = res["truth"]
         nt = nontrivial(res)
         canon = repr((sorted(res["case"]["units"].items()), res["case"].get("path"), res["case"]["privacy"], sorted(res["case"]["opts"].items())))
+        ctx.count("case-kind:" + ("corpus" if res["case"]["name"].startswith("corpus:") else "real" if res["case"].get("path")
+                                  else "random" if res["case"]["name"].startswith("gen") else "scenario"))
         ctx.case(canon, nt, {"name": res["case"]["name"], "privacy": res["case"]["privacy"], "opts": res["case"]["opts"],
                              "modules": sorted(res["case"]["units"])} if nt else None)
         ctx.count("theme:" + res["case"]["opts"].get("theme", "classic"))
